@@ -36,7 +36,10 @@ open Parsley Parsley.Obj Parsley.Spelling Parsley.DocSpec Driver Driver.C03
            fully superseded, position of the redefined member in both streams, a second redefinition, updates in between)
       packh <hex> <seed> <variant>   two revisions, each with a TIGHTLY PACKED object stream (see `genPackH`, Driver/C03.lean `genPack`)
       reth <hex> <seed> <revisions> <index>   identity mismatch by RETARGETING one cross-reference entry across revisions
-           (see `genReth` and Driver/C03.lean `RetCase`): must be rejected; shadowed entries are controls -/
+           (see `genReth` and Driver/C03.lean `RetCase`): must be rejected; shadowed entries are controls
+      zero <hex> <seed> <variant>   OBJECT NUMBER 0 AS AN ORDINARY OBJECT (in-use / compressed entry at number 0 in the base or
+           added, redefined, freed, re-added by an update; tables, cross-reference streams, hybrids) and the boundary
+           object numbers 1, 2^16 +- 1, 2^31 +- 1, 2^32 +- 1 added by an update (see `genZero`) -/
 
 /-- the revisions of a history, all /Prev automatic -/
 def genRevs (seed variant maxRevs : Nat) : List Rev × Bytes × Bool × Rng :=
@@ -580,6 +583,97 @@ def genPackH (seed variant : Nat) : Scene :=
   let revs := if (variant / 4) % 2 == 1 then [base, upd, top] else [base, upd]
   ⟨garbage, bin == 1, revs.map fun x => (x, .auto), some (List.range revs.length)⟩
 
+/-! ### object number 0 as an ORDINARY object, and boundary object numbers (`zero`)
+
+    Nothing in the loader's contract reserves object number 0: an in-use (`0 g n`, type-1 row at index 0) or compressed
+    (type-2 row at index 0) entry for it defines (0, g) like any other entry, and the newest entry wins.  variant decodes as
+    where = v % 10, base layout (v / 10) % 3, update layout (v / 30) % 3, flag (v / 90) % 2:
+      0 the base defines `0 g obj` (no free-list head is written), the update redefines object 2
+      1 the base has the usual free head `0 65535 f`, the update ADDS object 0
+      2 the base defines 0, the update REDEFINES it          3 the base defines 0, the update FREES it (`0 g f`)
+      4 as 3, and a third revision re-adds 0 as a stream     5 0 is a COMPRESSED member of the base's object stream 20
+      6 the update adds 0 as a compressed member of its new object stream 40 (next to member 31)
+      7 as 6, 0 being the ONLY member of stream 40           8 the update adds 0, a third revision redefines object 2
+      9 BOUNDARY NUMBERS: the update adds objects 1, 65535, 65536, 2^31-1, 2^31, 2^32-1, 2^32 (flag: a third revision
+        redefines 65536 and 2^32)
+    flag: where 0-4, 8: generation of object 0 is 3 instead of 0; where 5-7: a third, plain revision on top.
+    Generations are stable and members are never touched later, so the oracle is plain `resolve`. -/
+
+def zeroVariants : Nat := 180
+
+def genZero (seed variant : Nat) : Scene :=
+  let r := Rng.mk' (seed * 6151 + variant * 29 + 3)
+  let (garbage, r) := rndGarbage r
+  let (bin, r) := r.nat 2
+  let w := variant % 10
+  let k0 := (variant / 10) % 3
+  let k1 := (variant / 30) % 3
+  let flag := (variant / 90) % 2 == 1
+  let k0 := if w == 5 && k0 == 0 then 1 + (variant / 30) % 2 else k0
+  let k1 := if (w == 6 || w == 7) && k1 == 0 then 1 + (variant / 10) % 2 else k1
+  let g0 := if flag && (w ≤ 4 || w == 8) then 3 else 0
+  let (k2, r) := r.nat 3
+  let mkLay (r : Rng) (k x : Nat) (noMembers : Bool) : RevLay × Rng :=
+    let (l, r) := rndLay r k x 65535
+    (if k == 2 && noMembers then { l with up := false } else l, r)
+  let (p1, r) := rndValObj r (if w == 9 then 3 else 1) 0
+  let (p2, r) := rndValObj r (if w == 9 then 5 else 2) 0
+  let (p2', r) := rndValObj r (if w == 9 then 5 else 2) 0
+  let (p4, r) := rndValObj r 4 0
+  let (z0, r) := rndValObj r 0 g0
+  let (z1, r) := rndValObj r 0 g0
+  let (z2, r) := rndStmObj r 0 g0 none
+  let (m0, r) := memberOf r 0
+  let (m11, r) := memberOf r 11
+  let (m12, r) := memberOf r 12
+  let (m31, r) := memberOf r 31
+  let (at0, r) := r.nat 3
+  let (at1, r) := r.nat 2
+  -- base revision: objects 1, 2 (+ 0), with a cross-reference stream also object stream 20 (members 11, 12 (+ 0))
+  let baseHasZero := w == 0 || w == 2 || w == 3 || w == 4
+  let ms0 := if w == 5 then [m11, m12].take at0 ++ [m0] ++ [m11, m12].drop at0 else [m11, m12]
+  let (c20, mem20, r) := lenContainer r 20 0 ms0
+  let (objs0, r) := shuffleL ([p1, p2] ++ (if baseHasZero then [z0] else []) ++ (if k0 == 0 then [] else [c20])) r
+  let mem20 := if k0 == 0 then [] else mem20
+  let (l0, r) := mkLay r k0 90 mem20.isEmpty
+  let root : DocSpec.ObjId := (p1.num, 0)
+  let base : Rev := { objs := objs0, members := mem20, frees := [], zero := !(baseHasZero || w == 5), root, lay := l0 }
+  -- first update
+  let ms1 := if w == 7 then [m0] else [m31].take at1 ++ [m0] ++ [m31].drop at1
+  let (c40, mem40, r) := lenContainer r 40 0 ms1
+  let bnd : List Nat := [1, 65535, 65536, 2147483647, 2147483648, 4294967295, 4294967296]
+  let (bo, r) := bnd.foldl (fun (acc : List DObj × Rng) n => let (o, r) := rndValObj acc.2 n 0; (acc.1 ++ [o], r)) ([], r)
+  let (objs1, frees1, mem1) : List DObj × List (Nat × Nat) × List (Nat × Nat × Nat × Obj) :=
+    match w with
+    | 0 => ([p2'], [], [])
+    | 1 => ([z1, p4], [], [])
+    | 2 => ([z1], [], [])
+    | 3 => ([p4], [(0, g0)], [])
+    | 4 => ([p4], [(0, g0)], [])
+    | 5 => ([p2'], [], [])
+    | 6 => ([p4, c40], [], mem40)
+    | 7 => ([c40], [], mem40)
+    | 8 => ([z1, p4], [], [])
+    | _ => (bo, [], [])
+  let (objs1, r) := shuffleL objs1 r
+  let (l1, r) := mkLay r k1 91 mem1.isEmpty
+  let upd : Rev := { objs := objs1, members := mem1, frees := frees1, zero := false, root, lay := l1 }
+  -- optional third revision
+  let (q1, r) := rndValObj r 65536 0
+  let (q2, r) := rndValObj r 4294967296 0
+  let (p2'', r) := rndValObj r 2 0
+  let objs2 : List DObj :=
+    match w with
+    | 4 => [z2]
+    | 8 => [p2']
+    | 9 => if flag then [q2, q1] else []
+    | 5 | 6 | 7 => if flag then [p2''] else []
+    | _ => []
+  let (l2, _) := mkLay r k2 92 true
+  let top : Rev := { objs := objs2, members := [], frees := [], zero := false, root, lay := l2 }
+  let revs := if objs2.isEmpty then [base, upd] else [base, upd, top]
+  ⟨garbage, bin == 1, revs.map fun x => (x, .auto), some (List.range revs.length)⟩
+
 def judge (case impl : String) : String :=
   match judgeCommon case impl with
   | some v => v
@@ -607,6 +701,9 @@ def judge (case impl : String) : String :=
     | "long" :: hex :: seed :: len :: _ =>
       if impl.trimAscii.toString == "nomodel" then "skip" else      -- (the model's side of an oracle-only case)
       let v := judgeScene (genLong seed.toNat! len.toNat!) hex impl
+      if v.startsWith "bad wrong-load" then "bad wrong-merge " ++ " ".intercalate ((v.splitOn " ").drop 2) else v
+    | ["zero", hex, seed, variant] =>
+      let v := judgeScene (genZero seed.toNat! variant.toNat!) hex impl
       if v.startsWith "bad wrong-load" then "bad wrong-merge " ++ " ".intercalate ((v.splitOn " ").drop 2) else v
     | ["big", hex, seed, variant] =>
       let v := judgeScene (genBig seed.toNat! variant.toNat!) hex impl
@@ -651,6 +748,12 @@ def gen (seed n : Nat) (tier : String) (emit : String → IO Unit) : IO Unit := 
         match retUsable (genReth s nr idx) with
         | some bytes => emit s!"reth {hexOfBytes bytes} {s} {nr} {idx}"
         | none => pure ()
+  -- object number 0 as an ordinary object / boundary object numbers: all 180 combinations (the seed picks values and layouts)
+  for rep in List.range (if tier == "thorough" then 5 else 1) do
+    for v in List.range zeroVariants do
+      let s := (seed + 29 * rep) * 1039 + v
+      let (bytes, _, _, _) := render (genZero s v)
+      emit s!"zero {hexOfBytes bytes} {s} {v}"
   for k in List.range n do
     let s := seed * 100003 + k
     let v := k % 8 + (if tier == "thorough" && k % 3 == 0 then 1000 else 0)
@@ -682,6 +785,7 @@ def nontrivial (line : String) : Bool :=
   match words line with
   | "hist" :: hex :: _ => hex.length ≥ 1000
   | "big" :: _ => true
+  | "zero" :: _ => true
   | "redef" :: _ => true
   | "pack" :: _ => true
   | "packh" :: _ => true
